@@ -476,6 +476,51 @@ func init() {
 				add(d, op, k1, w2, nil)
 			}
 		}
+		// names that are not a single path element, at every kind of position (childless root, root with children,
+		// inner node, leaf), alone and next to a valid root: the validating operations must give the simple-mode verdict
+		hostile := []docT{
+			{"badname-childless-root", []string{"- a/b\n", "- c\n  - d\n"}, nil, ""},
+			{"badname-childless-root-only", []string{"- a/b\n"}, nil, ""},
+			{"badname-dotdot-root-last", []string{"- c\n", "- ..\n"}, nil, ""},
+			{"badname-root-with-child", []string{"- a/b\n  - x\n", "- c\n"}, nil, ""},
+			{"badname-leaf", []string{"- a\n  - b\n", "- c\n  - x/y\n"}, nil, ""},
+			{"badname-inner", []string{"- a\n  - .\n    - k\n"}, nil, ""},
+		}
+		for _, d := range hostile {
+			for _, op := range []string{"out-dry", "mkdir", "verify"} {
+				add(d, op, k1, w2, nil)
+			}
+			add(d, "verify", 0, w3, func(s *c10Spec) { s.name += "/strict"; s.strict = true })
+		}
+		// verify: directory states in which something else than a directory sits where the tree has a node, entries
+		// are missing, or extra entries exist; strict and not
+		{
+			d := docs[1] // a/b/c, d, e/f
+			states := map[string]map[string]byte{
+				"empty":            {},
+				"complete":         {"a/b/c": 'd', "d": 'd', "e/f": 'd'},
+				"file-at-inner":    {"a/b": 'f', "d": 'd', "e/f": 'd'},
+				"file-at-leaf":     {"a/b/c": 'f', "d": 'd', "e/f": 'f'},
+				"root-is-file":     {"a/b/c": 'd', "d": 'f', "e/f": 'd'},
+				"extra-entries":    {"a/b/c": 'd', "a/zz": 'f', "d/yy": 'd', "e/f/deep/er": 'd'},
+				"last-root-absent": {"a/b/c": 'd', "d": 'd'},
+				"leaf-absent":      {"a/b": 'd', "d": 'd', "e": 'd'},
+			}
+			var names []string
+			for n := range states {
+				names = append(names, n)
+			}
+			sort.Strings(names)
+			for _, n := range names {
+				for _, strict := range []bool{false, true} {
+					st, str := states[n], strict
+					add(d, "verify", 0, w2, func(s *c10Spec) {
+						s.name += "/state-" + n + fmt.Sprintf("/strict=%v", str)
+						s.pre, s.strict = st, str
+					})
+				}
+			}
+		}
 		// one worker per stage: every block passes through the same worker (state kept between blocks shows here)
 		w1only := map[string]int{"*": 1}
 		w1gen := map[string]int{"workerGenerateNum": 1, "workerGrowNum": 1, "*": 2}
